@@ -43,6 +43,8 @@ type rexp struct {
 	Fail   bool           // a failure status (>= 400) is expected
 	Fields map[string]any // on success: these JSON fields must be present with exactly these values
 	Either bool           // both verdicts acceptable (clock moved across a step boundary)
+	Now0   int64          // the instants bracketing the request (for requests without a timestamp)
+	Now1   int64
 	Note   string
 }
 
@@ -141,7 +143,7 @@ func restExpect(q rreq, now0, now1 int64) rexp {
 		per := fu64(f, "period")
 		ts := int64(fu64(f, "timestamp"))
 		if ts <= 0 {
-			return rexp{Note: "now", Fields: map[string]any{"code": func(echo int64) string { return ref.HOTP(key, ref.Step(echo, per), d, a) }}}
+			return rexp{Note: "now", Now0: now0, Now1: now1, Fields: map[string]any{"code": func(echo int64) string { return ref.HOTP(key, ref.Step(echo, per), d, a) }}}
 		}
 		return rexp{Fields: map[string]any{"code": ref.HOTP(key, ref.Step(ts, per), d, a), "timestamp": uint64(ts)}}
 	case "/hotp/validate", "/totp/validate":
@@ -379,7 +381,10 @@ func compareResp(q rreq, e rexp, resp restResp, streamWant func(n int) string) s
 		case k == "code" && e.Note == "now":
 			ts, ok := num(got["timestamp"])
 			if !ok {
-				return "no timestamp echoed for a request without timestamp"
+				return fmt.Sprintf("no (non-negative) timestamp echoed for a request without timestamp: %v", got["timestamp"])
+			}
+			if e.Now0 > 0 && (int64(ts) < e.Now0-1 || int64(ts) > e.Now1+1) {
+				return fmt.Sprintf("a request without timestamp was answered for instant %d, but it was sent between %d and %d", ts, e.Now0, e.Now1)
 			}
 			if want := w.(func(int64) string)(int64(ts)); got["code"] != want {
 				return fmt.Sprintf("code = %v, want %s (reference at the echoed timestamp %d)", got["code"], want, ts)
